@@ -5,7 +5,8 @@
    (frame, then black cells) exactly when [ans] obeys Rules_yajilin.  The graph side is
    YajilinCompose.cycle_grid_compose. *)
 From Coq Require Import ZArith List Bool Arith Lia.
-From Cspuz Require Import Lib.PyErr Core.Expr Core.Program Graph.GraphModel Graph.Cycle Graph.CycleLemmas
+From Cspuz Require Import Lib.PyErr Core.Expr Core.Program Core.Build Graph.GraphModel Graph.Cycle Graph.CycleLemmas
+     Graph.CycleProofs Graph.CycleFrame
      Puzzle.PuzzleBase Puzzle.SatAbs Puzzle.ModelBase Puzzle.ModelLemmas Puzzle.AkariLemmas
      Puzzle.CycleFrameBase Puzzle.CycleCompose Puzzle.YajilinCompose Puzzle.Rules_yajilin Puzzle.Yajilin.
 Import ListNotations.
@@ -188,7 +189,7 @@ Section Core.
     (negb (lit (y, x)) || forallb (fun c' => negb (lit c')) (nbr4 H W y x)) &&
     forallb (holds no_graph en) (yj_cell H W kind num (y, x)).
   Proof.
-    intros Hy Hx. cbv zeta. rewrite (yj_black_lit y x Hy Hx), (yj_passed_on y x Hy Hx). f_equal.
+    intros Hy Hx. cbv beta zeta. rewrite (yj_black_lit y x Hy Hx), (yj_passed_on y x Hy Hx). f_equal.
     - f_equal. apply forallb_ext_in. intros [y' x'] Hn. destruct (nbr4_in H W y x y' x' Hy Hx Hn) as [Hy' Hx'].
       rewrite (yj_black_lit y' x' Hy' Hx'). reflexivity.
     - unfold yj_cell, yj_arrow_cells.
@@ -214,8 +215,9 @@ Section Core.
     forallb (fun '(y, x) => negb (lit (y, x)) || forallb (fun c' => negb (lit c')) (nbr4 H W y x)) (cells H W) =
     forallb (holds no_graph en) (yajilin_not_adjacent H W).
   Proof.
-    rewrite (yj_nonadj_forms lit H W). unfold yajilin_not_adjacent. rewrite forallb_app, !forallb_map. f_equal;
-      apply forallb_ext_in; intros [y x] _; rewrite yj_hold_nand; reflexivity.
+    etransitivity; [exact (yj_nonadj_forms lit H W)|].
+    unfold yajilin_not_adjacent. rewrite forallb_app, !forallb_map. f_equal;
+      apply forallb_ext_in; intros [y x] _; cbv beta iota; rewrite yj_hold_nand; reflexivity.
   Qed.
 
   Lemma yj_local_core :
@@ -285,7 +287,10 @@ Theorem yajilin_exact H W kind num st ans :
    <-> rules_yajilin [[Z.of_nat H; Z.of_nat W]; kind; num] ans = true).
 Proof.
   destruct H as [|h]; [intros Hm; discriminate Hm|].
-  destruct W as [|w]; [intros Hm; unfold solve_yajilin_model in Hm; simpl in Hm; discriminate Hm|].
+  destruct W as [|w].
+  { intros Hm. unfold solve_yajilin_model in Hm.
+    change (getz (sec [[Z.of_nat (S h); Z.of_nat 0]; kind; num] 0) 1) with 0%Z in Hm.
+    change (0 <? 1)%Z with true in Hm. rewrite orb_true_r in Hm. discriminate Hm. }
   intros Hm. destruct (yajilin_model_shape h w kind num st Hm) as [st0 [st1 [res [Hv0 [Hc0 [Hcall [Hv Hc]]]]]]].
   destruct (cycle_grid_compose no_graph h w (S h * S w) st0 st1 st res _ Hv0 Hc0 Hcall Hv Hc
               (yj_local (S h) (S w) kind num) ans
@@ -298,6 +303,116 @@ Qed.
 
 (* ------------------------------------------------------------------------------------------------------ *)
 (* the premise is satisfiable: the model accepts every board with height, width >= 1 and enough cells      *)
+
+(* the answer-key flags after the single-cycle helper: the helper declares 3 (h+1)(w+1) variables, none of them a key *)
+Lemma yj_post_cycle_keys acts g base st :
+  wf_graph g = true -> length (edges g) <= length acts ->
+  (forall e, In e acts -> is_constraint_like e = true) ->
+  next_id st = base -> 1 <= nv g ->
+  exists st' p, post_cycle st acts g false = Ok (st', p) /\
+             keys st' = keys st ++ repeat false (nv g) ++ repeat false (nv g) ++ repeat false (nv g).
+Proof.
+  intros Hwf Hlen Hcl Hb Hn. unfold post_cycle, bool_array, int_array.
+  rewrite bool_vars_spec. rewrite Hb.
+  replace (Z.of_nat (nv g) - 1 <? 0)%Z with false by (symmetry; apply Z.ltb_ge; lia).
+  rewrite int_vars_spec. cbn [bind]. rewrite bool_vars_spec.
+  unfold next_id. cbn [vars keys Program.cons].
+  rewrite !app_length, !repeat_length. fold (next_id st). rewrite Hb.
+  fold (hiZ g). fold (passedL g base). fold (rankL g base). fold (rootL g base).
+  rewrite (for_each_ok _ (fun i s => ensure (ensure s [c_deg acts g base i]) [c_rank acts g base i])).
+  2:{ intros i s Hi. apply in_seq in Hi. apply cycle_step_ok; [assumption|assumption|assumption|lia]. }
+  cbn [bind].
+  rewrite (count_true_ok (rootL g base)).
+  2:{ intros x Hx. unfold rootL in Hx. apply in_map_iff in Hx. destruct Hx as [? [<- _]]. reflexivity. }
+  cbn [bind]. eexists. eexists. split; [reflexivity|].
+  match goal with |- context [fold_left ?f ?l ?s] =>
+    destruct (fold_ensure2 (c_deg acts g base) (c_rank acts g base) l s) as [H1 [H2 H3]] end.
+  cbn [ensure vars keys Program.cons]. rewrite H2. cbn [keys]. rewrite <- !app_assoc. reflexivity.
+Qed.
+
+Lemma yj_set_nth_app {A} (pre : list A) x r y : set_nth (pre ++ x :: r) (length pre) y = pre ++ y :: r.
+Proof. induction pre as [|p pre IH]; simpl; [reflexivity|]. rewrite IH. reflexivity. Qed.
+
+Lemma yj_add_keys_ok n : forall st a pre post,
+  keys st = pre ++ repeat false n ++ post -> length pre = a ->
+  exists st', yj_add_keys st (map BVar (seq a n)) = Ok st' /\
+              keys st' = pre ++ repeat true n ++ post /\ vars st' = vars st /\ Program.cons st' = Program.cons st.
+Proof.
+  induction n as [|n IH]; intros st a pre post Hk Ha.
+  - exists st. simpl in *. auto.
+  - cbn [seq map yj_add_keys]. unfold add_answer_key.
+    assert (Hn : nth_error (keys st) a = Some false).
+    { rewrite Hk, nth_error_app2 by lia. replace (a - length pre) with 0 by lia. reflexivity. }
+    rewrite Hn.
+    set (st2 := {| vars := vars st; keys := set_nth (keys st) a true; cons := Program.cons st |}).
+    destruct (IH st2 (S a) (pre ++ [true]) post) as [st' [H1 [H2 [H3 H4]]]].
+    + unfold st2. cbn [keys]. rewrite Hk. cbn [repeat app]. rewrite <- Ha, yj_set_nth_app, <- app_assoc. reflexivity.
+    + rewrite app_length. simpl. lia.
+    + exists st'. split; [exact H1|]. split; [|split; [exact H3|exact H4]].
+      rewrite H2, <- app_assoc. reflexivity.
+Qed.
+
+Lemma yajilin_model_total h w kind num :
+  S h * S w <= length kind ->
+  exists st, solve_yajilin_model [[Z.of_nat (S h); Z.of_nat (S w)]; kind; num] = Ok st.
+Proof.
+  intros Hl. unfold solve_yajilin_model.
+  change (sec [[Z.of_nat (S h); Z.of_nat (S w)]; kind; num] 1) with kind.
+  change (sec [[Z.of_nat (S h); Z.of_nat (S w)]; kind; num] 2) with num.
+  change (sec [[Z.of_nat (S h); Z.of_nat (S w)]; kind; num] 0) with [Z.of_nat (S h); Z.of_nat (S w)].
+  change (getz [Z.of_nat (S h); Z.of_nat (S w)] 0) with (Z.of_nat (S h)).
+  change (getz [Z.of_nat (S h); Z.of_nat (S w)] 1) with (Z.of_nat (S w)).
+  destruct (yj_dims (S h) (S w) [kind; num]) as [-> ->].
+  replace ((Z.of_nat (S h) <? 1) || (Z.of_nat (S w) <? 1))%Z with false
+    by (symmetry; apply orb_false_iff; split; apply Z.ltb_ge; lia).
+  replace (S h - 1) with h by lia. replace (S w - 1) with w by lia.
+  unfold bool_array. rewrite !bool_vars_spec.
+  set (sa := {| vars := vars empty_state ++ repeat DBool (S h * w);
+                keys := keys empty_state ++ repeat false (S h * w);
+                cons := Program.cons empty_state |}).
+  assert (Hn : next_id sa = S h * w) by (unfold next_id; simpl; apply repeat_length).
+  rewrite Hn. change (next_id empty_state) with 0.
+  fold (frame_hor h w). fold (frame_ver h w).
+  set (sb := {| vars := vars sa ++ repeat DBool (h * S w); keys := keys sa ++ repeat false (h * S w);
+                cons := Program.cons sa |}).
+  assert (Hnb : next_id sb = frame_n h w).
+  { unfold next_id, sb, sa, frame_n. simpl. rewrite app_length, !repeat_length. reflexivity. }
+  destruct (cycle_frame h w _ _ (frame_hor_length h w) (frame_ver_length h w)) as [_ [_ [Hwf [Hlen [_ [Hc _]]]]]].
+  rewrite Hc.
+  assert (Hcl : forall e, In e (frame_edges h w (frame_hor h w) (frame_ver h w)) -> is_constraint_like e = true).
+  { intros e He. apply (frame_edges_in h w _ _ (frame_hor_length h w) (frame_ver_length h w)) in He.
+    destruct He as [He|He]; apply in_map_iff in He; destruct He as [k [<- _]]; reflexivity. }
+  destruct (yj_post_cycle_keys _ _ (frame_n h w) sb Hwf ltac:(rewrite Hlen; apply le_n) Hcl Hnb ltac:(simpl; lia))
+    as [st1 [p [Hp Hk1]]].
+  rewrite Hp. rewrite bool_vars_spec.
+  change (nv (frame_graph h w (frame_hor h w) (frame_ver h w))) with (S h * S w) in Hk1.
+  set (P := S h * S w) in *.
+  assert (Hfr : frame_hor h w ++ frame_ver h w = map BVar (seq 0 (frame_n h w))).
+  { unfold frame_hor, frame_ver, frame_n. rewrite seq_app, map_app. reflexivity. }
+  rewrite Hfr.
+  match goal with |- context [yj_add_keys ?s (map BVar (seq 0 (frame_n h w)))] => set (s2 := s) end.
+  destruct (yj_add_keys_ok (frame_n h w) s2 0 [] (repeat false P ++ repeat false P ++ repeat false P ++ repeat false P))
+    as [st3 [E3 [K3 [V3 _]]]].
+  { unfold s2. cbn [keys ensure]. rewrite Hk1. unfold sb, sa, frame_n. cbn [keys empty_state app].
+    rewrite repeat_app, <- !app_assoc. reflexivity. }
+  { reflexivity. }
+  rewrite E3.
+  assert (Hn1 : next_id st1 = frame_n h w + (P + (P + P))).
+  { destruct (post_cycle_enc_shape _ _ (frame_n h w) Hwf ltac:(rewrite Hlen; apply le_n) Hcl sb Hnb ltac:(simpl; lia))
+      as [st1' [Hp' [Hv' _]]]. rewrite Hp in Hp'. inversion Hp'; subst st1'.
+    unfold next_id. rewrite Hv'. unfold new_decls_enc. rewrite !app_length, !repeat_length. fold (next_id sb). rewrite Hnb.
+    reflexivity. }
+  rewrite Hn1.
+  destruct (yj_add_keys_ok P st3 (frame_n h w + (P + (P + P)))
+              (repeat true (frame_n h w) ++ repeat false P ++ repeat false P ++ repeat false P) [])
+    as [st4 [E4 _]].
+  { rewrite K3. cbn [app]. rewrite app_nil_r, <- !app_assoc. reflexivity. }
+  { rewrite !app_length, !repeat_length. reflexivity. }
+  rewrite E4.
+  replace (Nat.ltb (length kind) P) with false by (symmetry; apply Nat.ltb_ge; exact Hl).
+  eexists. reflexivity.
+Qed.
+
 
 Example yajilin_model_ok : exists st, solve_yajilin_model [[2; 2]; [0; 1; 3; 0]; [0; 1; 0; 0]]%Z = Ok st.
 Proof. vm_compute. eexists. reflexivity. Qed.
